@@ -71,4 +71,30 @@ def svgDoc (f : SvgFactory) (moduleDrawer eyeDrawer : SvgDrawer) (M : Mods) (wid
         some (2 * d.den, drawShape f.isPath d boxSize ((c + border) * boxSize) ((r + border) * boxSize))
       else none }
 
+/-! ### `SvgFragmentImage.units(pixels)` as text -/
+
+/-- round half to even of `a / b` (b > 0) -/
+def roundHalfEven (a b : Nat) : Nat :=
+  let q := a / b
+  let r := a % b
+  if 2 * r < b then q else if 2 * r > b then q + 1 else if q % 2 = 0 then q else q + 1
+
+/-- decimal digits of `x`, exactly `k` of them (leading zeros kept) -/
+def digitsK (x : Nat) : Nat → List Char
+  | 0 => []
+  | k + 1 => digitsK (x / 10) k ++ [Nat.digitChar (x % 10)]
+
+/-- a length given in thousandths of a millimetre, printed like Python's Decimal after the quantize cascade of `units()`:
+    three decimals with trailing zeros (and a bare point) removed -/
+def fmtThousandths (t : Nat) : String :=
+  let whole := toString (t / 1000)
+  let frac := t % 1000
+  if frac = 0 then whole
+  else if frac % 100 = 0 then whole ++ "." ++ String.ofList (digitsK (frac / 100) 1)
+  else if frac % 10 = 0 then whole ++ "." ++ String.ofList (digitsK (frac / 10) 2)
+  else whole ++ "." ++ String.ofList (digitsK frac 3)
+
+/-- `units(pixels)` for `pixels = num / den` (1 pixel = 0.1 mm): quantised half-even to 0.001 mm, text with unit -/
+def units (num den : Nat) : String := fmtThousandths (roundHalfEven (100 * num) den) ++ "mm"
+
 end QR.Model
